@@ -1,30 +1,72 @@
-import json, os, sys
+"""./setup: build, offline, everything the registered checks need (Coq groups as full .vo builds,
+harness crates against /repo's working tree).  Groups/crates of properties that are not (yet)
+registered in MANIFEST.json are built best-effort and never fail the setup."""
+import importlib.util, json, os, sys
 ROOT = os.path.dirname(os.path.dirname(os.path.abspath(__file__)))
 sys.path.insert(0, os.path.join(ROOT, "lib"))
 import vf
 ctx = vf.Ctx("SETUP", "quick", 0)
 rc = 0
-groups = sorted(g for g in os.listdir(vf.COQ) if os.path.isdir(os.path.join(vf.COQ, g)))
-# pins first (Pins.v files are generated, never committed)
+manifest = json.load(open(os.path.join(ROOT, "MANIFEST.json")))
+claimed = [c["property_id"] for c in manifest["checks"]]
+need_groups, need_harness = [], []
+mods = {}
 for fn in sorted(os.listdir(os.path.join(ROOT, "checks"))):
-    if fn.endswith(".py"):
-        import importlib.util
-        spec = importlib.util.spec_from_file_location("check_" + fn[:-3], os.path.join(ROOT, "checks", fn))
+    if not fn.endswith(".py"):
+        continue
+    pid = fn[:-3]
+    try:
+        spec = importlib.util.spec_from_file_location("check_" + pid, os.path.join(ROOT, "checks", fn))
         mod = importlib.util.module_from_spec(spec)
         spec.loader.exec_module(mod)
-        if hasattr(mod, "PINS"):
+    except Exception as ex:
+        print("setup: cannot import checks/%s: %s" % (fn, ex))
+        if pid in claimed:
+            rc = 1
+        continue
+    mods[pid] = mod
+    groups = list(getattr(mod, "GROUPS", [])) or ([mod.GROUP] if hasattr(mod, "GROUP") else [])
+    hgroups = list(getattr(mod, "HARNESS_GROUPS", groups))
+    if pid in claimed:
+        for g in groups:
+            for d in vf.group_deps(g) + [g]:
+                if d not in need_groups:
+                    need_groups.append(d)
+        for g in hgroups:
+            if g not in need_harness:
+                need_harness.append(g)
+    if hasattr(mod, "PINS"):
+        try:
             probs = ctx.pins(mod.GROUP, mod.PINS)
             if probs:
                 print("setup: pins for", fn, probs)
-for g in groups:
+        except Exception as ex:
+            print("setup: pins for %s failed: %s" % (fn, ex))
+    if hasattr(mod, "setup_hook"):
+        try:
+            mod.setup_hook(ctx)
+        except Exception as ex:
+            print("setup: setup_hook of %s failed: %s" % (fn, ex))
+            if pid in claimed:
+                rc = 1
+all_groups = sorted(g for g in os.listdir(vf.COQ) if os.path.isdir(os.path.join(vf.COQ, g)))
+for g in ["common"] + need_groups + [g for g in all_groups if g not in need_groups and g != "common"]:
+    required = g == "common" or g in need_groups
+    if not any(f.endswith(".v") for f in os.listdir(os.path.join(vf.COQ, g))):
+        continue
     ok, out = ctx.make(g, None, timeout=3600)
-    print("setup: coq group %-12s %s" % (g, "ok" if ok else "FAILED"))
+    print("setup: coq group %-12s %s%s" % (g, "ok" if ok else "FAILED", "" if required else " (not registered yet)"))
     if not ok:
-        print(out[-2000:]); rc = 1
+        print(out[-1500:])
+        if required:
+            rc = 1
 hdir = os.path.join(ROOT, "harness")
-for g in sorted(os.listdir(hdir)):
+for g in need_harness + [g for g in sorted(os.listdir(hdir)) if g not in need_harness]:
     if not os.path.exists(os.path.join(hdir, g, "Cargo.toml")):
         continue
+    required = g in need_harness
+    if not required and os.environ.get("VERIF_SETUP_ALL") != "1":
+        continue      # unregistered harnesses are built on demand by their checks
     cfg = {}
     p = os.path.join(hdir, g, "verif.json")
     if os.path.exists(p):
@@ -34,5 +76,7 @@ for g in sorted(os.listdir(hdir)):
             ctx.harness(g, profile=prof, features=cfg.get("features", ""), hooks=cfg.get("hooks", True))
             print("setup: harness %-12s %-8s ok" % (g, prof))
         except vf.CheckerBroken as ex:
-            print("setup: harness %s %s FAILED\n%s" % (g, prof, ex)); rc = 1
+            print("setup: harness %s %s FAILED\n%s" % (g, prof, str(ex)[-1500:]))
+            if required:
+                rc = 1
 sys.exit(rc)
